@@ -147,13 +147,7 @@ structure St where
   trees : List ((Bytes × Int) × Option Tree)      -- (store, version) ↦ tree (none = empty)
   commits : List (Int × List StoreInfo × Bytes)   -- version ↦ infos, app hash
 
-def Tree.find : Tree → Bytes → Option Bytes
-  | .leaf k v _, key => if k = key then some v else none
-  | .inner _ _ _ nk l r, key => if key < nk then Tree.find l key else Tree.find r key
-
-def Tree.leafList : Tree → List (Bytes × Bytes)
-  | .leaf k v _ => [(k, v)]
-  | .inner _ _ _ _ l r => Tree.leafList l ++ Tree.leafList r
+def Tree.leafList (t : Tree) : List (Bytes × Bytes) := t.leaves.map fun e => (e.1, e.2.1)
 
 def lookupTree (st : St) (store : Bytes) (v : Int) : Option (Option Tree) :=
   (st.trees.find? fun e => e.1 = (store, v)).map (·.2)
